@@ -374,6 +374,16 @@ class ChainBuild(Suite):
                  files={'d.json': {'tasks': ['@M.*'], 'x': 1}},
                  base={'name': 'm', 'data': {'uses': ['d.json as pretrain', 'd.json as train', 'd.json as outer::inner', 'd.json as inner']}},
                  context={'dict': {'for_namespaces': {'train': {'y': 98}, 'inner': {'y': 94}}}}, hist=True),
+            # a stored task whose class derives from a task class that is kept in memory only (and the other way round), the
+            # parent listed first: each class has the data class its own Meta and return type say
+            dict(classes=[dict(K(0, 'Preview', params=[P('x')], data='memory'), name='preview'),
+                          dict(K(1, 'FullReport', params=[P('x')]), name='full_report', task_base=0),
+                          dict(K(2, 'Top', meta_inputs=[{'cls': 1}]), name='top')],
+                 files={}, base={'name': 'm', 'data': {'tasks': ['@M.*'], 'x': 2}}, context=None, hist=True),
+            dict(classes=[dict(K(0, 'Stored', params=[P('x')]), name='stored'),
+                          dict(K(1, 'Quick', params=[P('x')], data='memory'), name='quick', task_base=0),
+                          dict(K(2, 'Top', meta_inputs=[{'cls': 1}, {'cls': 0}]), name='top')],
+                 files={}, base={'name': 'm', 'data': {'tasks': ['@M.*'], 'x': 2}}, context=None, hist=True),
             # a pattern without wildcard names whole task names: ~stat_a takes stat_a, not stat_a_report
             dict(classes=[dict(K(0, 'StatA', params=[P('x')]), name='stat_a'), dict(K(1, 'StatB', params=[P('x')]), name='stat_b'),
                           dict(K(2, 'StatAReport', meta_inputs=[{'cls': 0}]), name='stat_a_report'),
